@@ -172,13 +172,15 @@ func (ix *idxEngine) table() []tableEntry {
 							return // the promoted wrappers forward their own parameters
 						}
 						key := cc.Args[len(cc.Args)-2]
-						g := loadedGlobal(unwrap(key, true))
-						if g == nil {
+						gs, okG := keyGlobalsOf(unwrap(key, true))
+						if !okG {
 							bad = "SetProperty key in " + FuncName(fn) + " is not a package-level key variable"
 							return
 						}
-						if _, isPtr := g.Type().(*types.Pointer).Elem().(*types.Pointer); !isPtr {
-							bad = "key variable " + g.Name() + " is not a pointer"
+						for _, g := range gs {
+							if _, isPtr := g.Type().(*types.Pointer).Elem().(*types.Pointer); !isPtr {
+								bad = "key variable " + g.Name() + " is not a pointer"
+							}
 						}
 						n++
 					})
